@@ -477,6 +477,24 @@ class HistRun:
     def gen_op(self):
         r = self.rng
         w = self.weights
+        q = getattr(self, "queue", None)
+        if q:
+            op = q.pop(0)
+            op["salt"] = r.getrandbits(32)
+            return op
+        if self.prop == "C06" and r.random() < 0.08:
+            # a member is deleted and comes back byte-identical; its UID must be taken again
+            cands = [(c, n) for c in self.store_colls(("calendar",)) for n, mm in sorted(c.members.items()) if mm.uid and mm.served and n.endswith(".ics")]
+            if cands:
+                c, n = r.choice(cands)
+                mm = c.members[n]
+                self.fresh += 1
+                other = "back%d.ics" % self.fresh
+                self.queue = [{"op": "delete", "path": c.path + n},
+                              {"op": "put", "coll": c.path, "name": n, "body": b2s(mm.served), "ctype": "text/calendar"},
+                              {"op": "put", "coll": c.path, "name": other, "body": b2s(gen.ics(r, mm.uid, rich=0)), "ctype": "text/calendar"}]
+                body, ct = self.body_for("scan%d.ics" % self.fresh)
+                return {"op": "put", "coll": c.path, "name": "scan%d.ics" % self.fresh, "body": b2s(body), "ctype": ct, "salt": r.getrandbits(32)}
         kinds = list(w)
         for _ in range(50):
             k = r.choices(kinds, [w[x] for x in kinds])[0]
